@@ -15,6 +15,14 @@ CHECKS = {
             "as a sequence, the log predicted under 'each cached element runs once while held'. Exploration of a large "
             "but finite sample; no claim beyond the generated sizes.",
             "trusts vf/ref.py (reference name resolution and evaluation order), the _t tick reference as observation point, small-int arguments"),
+    "C03": ("exploration",
+            "exhaustive enumeration of all ordered-base DAGs on <=4 spaces x definer subsets x construction orders, plus Hypothesis-generated member/base edit histories, against derivation from scratch with an independent C3",
+            "Every ordered-base inheritance DAG on up to four spaces is built in three construction orders with every non-empty "
+            "definer subset, and generated edit histories (define/redefine/delete/rename/override/un-override, add/remove bases) "
+            "are replayed; after each step membership, derived flags, formula sources, reference values, bases and evaluated "
+            "values of every space must equal derivation from scratch along the harness's own C3. The n<=4 part is exhaustive; "
+            "histories are a sample.",
+            "trusts the harness C3 (cross-checked against Python's class MRO), accept-follows-real for which edits are accepted; allow_none propagation and member order not asserted"),
 }
 
 NOT_YET = {
